@@ -375,3 +375,13 @@ ADDENDA9 = {
 }
 for _p, _t in ADDENDA9.items():
     CLAIMED[_p]['text'] = CLAIMED[_p]['text'].rstrip() + ' ' + _t
+
+# after round 19
+ADDENDA10 = {
+    'C16': "(P, extended) every in-place update of the momentum in the integrator is dominated by an out-of-place arithmetic update or a conversion (an in-place kick keeps the "
+           "precision of the mass matrix whatever the precision of the gradients).",
+    'C10': "(P, extended) a tensor of constant size (`x.new_ones(1)`, `torch.zeros(1)`) is not concatenated with a value that can carry sample dimensions.",
+    'C07': "(L, extended) C10.P axis rules on the transform modules (axes from the end, pieces without sample dimensions).",
+}
+for _p, _t in ADDENDA10.items():
+    CLAIMED[_p]['text'] = CLAIMED[_p]['text'].rstrip() + ' ' + _t
